@@ -33,7 +33,7 @@ Lemma c05_has11_spec l :
   has11 l <-> (In k11 l \/ exists u, In u l /\ shorthand (ns_part u) k11).
 Proof. unfold has11. apply c08_contains_iff. Qed.
 
-(* ------------------------------------------------------------ parse / build *)
+(* ------------------------------------------------------------ parse_hello / build *)
 Lemma all_some_map_Some l : all_some (map Some l) = Some l.
 Proof. induction l as [|x l IH]; cbn; [reflexivity|]. rewrite IH. reflexivity. Qed.
 
@@ -54,9 +54,9 @@ Proof.
 Qed.
 
 Lemma c05_reports : forall qual sid_text uris,
-  parse (server_hello qual sid_text uris) = Ok (SidText (Some sid_text), map fst (caps_of uris)).
+  parse_hello (server_hello qual sid_text uris) = Ok (SidText (Some sid_text), map fst (caps_of uris)).
 Proof.
-  intros q sd uris. unfold parse, server_hello. cbn [children_of parse_loop].
+  intros q sd uris. unfold parse_hello, server_hello. cbn [children_of parse_loop].
   assert (E1 : is_tag t_session_id (Node (qtag q t_capabilities) None
                  (map (fun u => Node (qtag q t_capability) (Some u) []) uris)) = false)
     by (destruct q; vm_compute; reflexivity).
@@ -70,9 +70,9 @@ Qed.
 
 (* the client hello lists exactly the keys of the client Capabilities object *)
 Lemma c05_build_lists client :
-  parse (build client) = Ok (SidDefault, map fst (caps_of (map fst (caps_of client)))).
+  parse_hello (build client) = Ok (SidDefault, map fst (caps_of (map fst (caps_of client)))).
 Proof.
-  unfold parse, build. cbn [children_of parse_loop].
+  unfold parse_hello, build. cbn [children_of parse_loop].
   assert (E1 : forall ch, is_tag t_session_id (Node (qualify t_capabilities) None ch) = false) by (intros; vm_compute; reflexivity).
   assert (E2 : forall ch, is_tag t_capabilities (Node (qualify t_capabilities) None ch) = true) by (intros; vm_compute; reflexivity).
   rewrite E1, E2. cbn [app].
@@ -129,7 +129,7 @@ Proof.
 Qed.
 
 Lemma run_main_mono f c : forall ls s s1 r,
-  s_main s = MReturned r -> run f c s ls = Some s1 -> s_main s1 = MReturned r.
+  s_main s = MReturned r -> run_labels f c s ls = Some s1 -> s_main s1 = MReturned r.
 Proof.
   induction ls as [|l ls IH]; intros s s1 r Hm H; cbn in H.
   - inversion H; subst; assumption.
@@ -137,8 +137,8 @@ Proof.
     eapply IH; [|exact H]. eapply step_main_mono; eauto.
 Qed.
 
-Lemma run_app f c : forall l1 l2 s s2, run f c s (l1 ++ l2) = Some s2 ->
-  exists s1, run f c s l1 = Some s1 /\ run f c s1 l2 = Some s2.
+Lemma run_app f c : forall l1 l2 s s2, run_labels f c s (l1 ++ l2) = Some s2 ->
+  exists s1, run_labels f c s l1 = Some s1 /\ run_labels f c s1 l2 = Some s2.
 Proof.
   induction l1 as [|l l1 IH]; intros l2 s s2 H; cbn in *.
   - eauto.
@@ -267,7 +267,7 @@ Proof.
     + intros _. eexists; reflexivity.
 Qed.
 
-Lemma inv_run c : forall ls s s1, Inv c s -> run true c s ls = Some s1 -> Inv c s1.
+Lemma inv_run c : forall ls s s1, Inv c s -> run_labels true c s ls = Some s1 -> Inv c s1.
 Proof.
   induction ls as [|l ls IH]; intros s s1 I H; cbn in H.
   - inversion H; subst; exact I.
@@ -277,7 +277,7 @@ Qed.
 
 (* ------------------------------------------------------------ final statements *)
 Lemma c05_first_frame : forall client labels s,
-  run true client init labels = Some s ->
+  run_labels true client init labels = Some s ->
   s_wire s = [] \/ exists rest, s_wire s = (B10, 0) :: rest.
 Proof.
   intros c ls s H. pose proof (inv_run c ls init s (inv_init c) H) as I.
@@ -285,7 +285,7 @@ Proof.
 Qed.
 
 Lemma c05_iff : forall client labels s,
-  run true client init labels = Some s ->
+  run_labels true client init labels = Some s ->
   forall i f m, nth_error (s_wire s) (S i) = Some (f, m) ->
   s_main s = MReturned None /\
   exists sv, s_caps s = Some sv /\ (f = B11 <-> has11 sv /\ has11 client).
@@ -298,7 +298,7 @@ Qed.
 
 (* bounded: once the deadline label has occurred _post_connect is no longer waiting *)
 Lemma timeout_returns f c : forall ls s0 s,
-  run f c s0 ls = Some s -> In LTimeout ls -> exists r, s_main s = MReturned r.
+  run_labels f c s0 ls = Some s -> In LTimeout ls -> exists r, s_main s = MReturned r.
 Proof.
   induction ls as [|l ls IH]; intros s0 s H Hin; [destruct Hin|].
   cbn in H. destruct (step f c s0 l) as [s1|] eqn:E; [|discriminate].
@@ -312,7 +312,7 @@ Proof.
 Qed.
 
 Definition good (l : label) : Prop :=
-  exists t sd uris, l = LRecv (HTree t) /\ parse t = Ok (sd, uris).
+  exists t sd uris, l = LRecv (HTree t) /\ parse_hello t = Ok (sd, uris).
 
 Lemma main_action_caps c s : s_caps (main_action c s) = s_caps s /\ s_error (main_action c s) = s_error s.
 Proof.
@@ -327,7 +327,7 @@ Proof.
     destruct r; inversion H; reflexivity.
   - destruct (negb (s_alive s)); [discriminate|]. destruct (negb (s_listener s)); [inversion H; reflexivity|].
     destruct h as [t|]; [|inversion H; reflexivity].
-    destruct (parse t) as [[sd uris]| |e] eqn:P; try (inversion H; reflexivity).
+    destruct (parse_hello t) as [[sd uris]| |e] eqn:P; try (inversion H; reflexivity).
     exfalso. apply Hg. exists t, sd, uris. auto.
   - destruct (negb (s_alive s)); [discriminate|]. destruct (s_listener s); inversion H; reflexivity.
   - destruct (s_main s); [|discriminate]. destruct (s_event s); inversion H; subst; [apply main_action_caps|reflexivity].
@@ -335,7 +335,7 @@ Proof.
   - destruct (s_main s) as [|[e|]]; try discriminate. destruct (s_alive s); inversion H; reflexivity.
 Qed.
 
-Lemma run_caps f c : forall ls s s1, run f c s ls = Some s1 ->
+Lemma run_caps f c : forall ls s s1, run_labels f c s ls = Some s1 ->
   (forall l, In l ls -> ~ good l) -> s_caps s1 = s_caps s.
 Proof.
   induction ls as [|l ls IH]; intros s s1 H Hg; cbn in H.
@@ -347,7 +347,7 @@ Qed.
 
 (* connect never succeeds without a well-formed server hello *)
 Lemma c05_needs_hello : forall client labels s,
-  run true client init labels = Some s ->
+  run_labels true client init labels = Some s ->
   (forall l, In l labels -> ~ good l) -> s_main s <> MReturned None.
 Proof.
   intros c ls s H Hg Hm. pose proof (inv_run c ls init s (inv_init c) H) as I.
@@ -363,7 +363,7 @@ Proof.
     destruct r; inversion H; subst; cbn; eauto.
   - destruct (negb (s_alive s)); [discriminate|]. destruct (negb (s_listener s)); [inversion H; subst; eauto|].
     destruct h as [t|]; [|inversion H; subst; eauto].
-    destruct (parse t) as [[sd uris]| |x]; inversion H; subst; cbn; eauto.
+    destruct (parse_hello t) as [[sd uris]| |x]; inversion H; subst; cbn; eauto.
   - destruct (negb (s_alive s)); [discriminate|]. destruct (s_listener s); inversion H; subst; cbn; eauto.
   - destruct (s_main s); [|discriminate]. destruct (s_event s); inversion H; subst; cbn; eauto.
     destruct (main_action_caps c s) as [_ E]. rewrite E. eauto.
@@ -373,7 +373,7 @@ Proof.
 Qed.
 
 Lemma run_error_persist f c : forall ls s s1 e,
-  s_error s = Some e -> run f c s ls = Some s1 -> exists e1, s_error s1 = Some e1.
+  s_error s = Some e -> run_labels f c s ls = Some s1 -> exists e1, s_error s1 = Some e1.
 Proof.
   induction ls as [|l ls IH]; intros s s1 e He H; cbn in H.
   - inversion H; subst; eauto.
@@ -383,7 +383,7 @@ Qed.
 
 (* the worker dies before a well-formed hello was processed: connect fails *)
 Lemma c05_die_first : forall client pre post s,
-  run true client init (pre ++ LDie :: post) = Some s ->
+  run_labels true client init (pre ++ LDie :: post) = Some s ->
   (forall l, In l pre -> ~ good l) -> s_main s <> MReturned None.
 Proof.
   intros c pre post s H Hg Hm.
@@ -393,7 +393,7 @@ Proof.
   assert (Hc : s_caps s1 = None) by (rewrite (run_caps _ _ _ _ _ H1 Hg); reflexivity).
   assert (Hn1 : s_main s1 <> MReturned None).
   { intros X. destruct (i_after _ _ I1 X) as (sv & Y & _). congruence. }
-  cbn [run] in H2. destruct (step true c s1 LDie) as [s2|] eqn:E; [|discriminate].
+  cbn [run_labels] in H2. destruct (step true c s1 LDie) as [s2|] eqn:E; [|discriminate].
   cbn [step] in E. destruct (negb (s_alive s1)); [discriminate|].
   destruct (s_listener s1) eqn:L.
   - inversion E; subst; clear E.
@@ -407,7 +407,7 @@ Proof.
 Qed.
 
 Lemma c05_no_hang : forall client labels s,
-  run true client init labels = Some s ->
+  run_labels true client init labels = Some s ->
   (In LTimeout labels -> exists r, s_main s = MReturned r) /\
   ((forall l, In l labels -> ~ good l) -> s_main s <> MReturned None) /\
   (forall pre post, labels = pre ++ LDie :: post -> (forall l, In l pre -> ~ good l) -> s_main s <> MReturned None).
